@@ -40,11 +40,16 @@ type CoffCase struct {
 	// Order of the header directives: 0 FORMAT INSTRSET BITS FILE (the usual one), 1 FILE FORMAT INSTRSET BITS,
 	// 2 FORMAT FILE INSTRSET BITS, 3 INSTRSET FORMAT BITS FILE
 	Order int `json:"order,omitempty"`
+	// Bits16: the program is 16-bit code (the usual objects are 32-bit)
+	Bits16 bool `json:"bits16,omitempty"`
 }
 
 func (c *CoffCase) source(format bool) string {
 	var sb strings.Builder
 	fm, is, bits, file := "", "", "[BITS 32]\n", ""
+	if c.Bits16 {
+		bits = "[BITS 16]\n"
+	}
 	if format {
 		fm = "[FORMAT \"WCOFF\"]\n"
 	}
@@ -475,18 +480,31 @@ func genCoffCase(t *rapid.T) CoffCase {
 		nl = rapid.IntRange(20, 45).Draw(t, "nlabels2")
 	}
 	ns := rapid.IntRange(0, 12).Draw(t, "nstmts")
-	for i := 0; i < ns; i++ {
-		if rapid.IntRange(0, 30).Draw(t, "big") == 0 {
-			c.Stmts = append(c.Stmts, fmt.Sprintf("RESB %d", rapid.SampledFrom([]int{1000, 40000, 66000}).Draw(t, "bigsz")))
-			continue
-		}
-		text, _ := genPlainStmt(t, 32, true)
-		c.Stmts = append(c.Stmts, text)
+	c.Bits16 = rapid.IntRange(0, 4).Draw(t, "bits16") == 0
+	smode := 32
+	if c.Bits16 {
+		smode = 16
 	}
 	for i := 0; i < nl; i++ {
 		nm := genCoffName(t, fmt.Sprintf("ln%d", i), used, names)
 		names = append(names, nm)
 		c.Labels = append(c.Labels, CoffLabel{Name: nm, Pos: rapid.IntRange(0, ns).Draw(t, fmt.Sprintf("lp%d", i)), Ser: i + 1})
+	}
+	for i := 0; i < ns; i++ {
+		if rapid.IntRange(0, 30).Draw(t, "big") == 0 {
+			c.Stmts = append(c.Stmts, fmt.Sprintf("RESB %d", rapid.SampledFrom([]int{1000, 40000, 66000}).Draw(t, "bigsz")))
+			continue
+		}
+		// branches and calls to the program's labels (their encoding depends on the distance)
+		if len(names) > 0 && rapid.IntRange(0, 5).Draw(t, "branch") == 0 {
+			c.Stmts = append(c.Stmts, rapid.SampledFrom([]string{"JMP", "CALL", "JE", "JNZ", "JB"}).Draw(t, "brmn")+" "+names[rapid.IntRange(0, len(names)-1).Draw(t, "brto")])
+			if rapid.Bool().Draw(t, "brgap") {
+				c.Stmts = append(c.Stmts, fmt.Sprintf("RESB %d", rapid.SampledFrom([]int{100, 126, 130, 200}).Draw(t, "brgapn")))
+			}
+			continue
+		}
+		text, _ := genPlainStmt(t, smode, true)
+		c.Stmts = append(c.Stmts, text)
 	}
 	// labels at the very end of the program (their value is the size of .text)
 	for i := rapid.SampledFrom([]int{0, 0, 1, 1, 2}).Draw(t, "nend"); i > 0; i-- {
@@ -533,7 +551,7 @@ func genCoffCase(t *rapid.T) CoffCase {
 
 var propC08 = &Prop[CoffCase]{
 	ID:     "C08",
-	Rule:   "32-bit WCOFF programs (0..12 statements incl. occasional 1k/40k/66k reservations) x 0..45 labels (some of them after the last byte of the program) x four orders of the header directives x GLOBAL statements declaring any sub-multiset of them (duplicates, undefined names, names of length 1..40 incl. exactly 8/9 and 18/19, shared prefixes) before and after the code x EXTERN x [FILE] of length 0..40 or absent; oracle: the same source assembled twice in one process gives the same object; strict COFF reader (every offset/count against the file size, aux records counted, string-table length, NUL-terminated long names) + debug/pe + (thorough, sampled) objdump; non-trivial = >= 1 GLOBAL and (a long name or non-empty .text); distinct by source text",
+	Rule:   "WCOFF programs (32-bit, one in five 16-bit; 0..12 statements incl. branches and calls to their labels and occasional 1k/40k/66k reservations) x 0..45 labels (some of them after the last byte of the program) x four orders of the header directives x GLOBAL statements declaring any sub-multiset of them (duplicates, undefined names, names of length 1..40 incl. exactly 8/9 and 18/19, shared prefixes) before and after the code x EXTERN x [FILE] of length 0..40 or absent; oracle: the same source assembled twice in one process gives the same object; strict COFF reader (every offset/count against the file size, aux records counted, string-table length, NUL-terminated long names) + debug/pe + (thorough, sampled) objdump; non-trivial = >= 1 GLOBAL and (a long name or non-empty .text); distinct by source text",
 	Assume: []string{"debug/pe and binutils objdump as independent COFF readers"},
 	Gen:    genCoffCase,
 	Check:  checkC08,
